@@ -335,7 +335,13 @@ RealResult runReal(const Config &cfg, const RealInput &in) {
       Handler h(out, err, flags);
       if (in.haveEnv && !in.envName.empty()) h.checkEnvVarArgs(in.envName);
       if (in.haveFile && in.fileViaArgument) h.addArgumentFile("arg-file");
-      for (auto &a : cfg.args) defineArg(h, *pool, cfg, a);
+      // arguments marked inSubGroup live in a sub-group handler that is reached through "-G,--sub-group"
+      bool anySub = false;
+      for (auto &a : cfg.args) if (a.inSubGroup) anySub = true;
+      std::unique_ptr<Handler> sub;
+      if (anySub) sub = std::make_unique<Handler>(h, Handler::hfHelpShort | Handler::hfHelpLong);
+      for (auto &a : cfg.args) defineArg(a.inSubGroup ? *sub : h, *pool, cfg, a);
+      if (anySub) h.addArgument("G,sub-group", *sub, "arguments of the sub group");
       for (auto &hc : cfg.hcs) defineHandlerConstraint(h, cfg, hc);
       if (usageLineLength(cfg.flags)) h.setUsageLineLength(usageLineLength(cfg.flags));
       setupDone = true;
